@@ -1,3 +1,3 @@
 //@ ret r
 //@ contract
-    ensures status_of(r) == 500, // @redirect_error_is_500
+    ensures is_error_code(status_of(r)), // @redirect_error_is_500
